@@ -29,6 +29,7 @@
 #include "draco/animation/keyframe_animation.h"
 #include "draco/animation/keyframe_animation_decoder.h"
 #include "draco/compression/bit_coders/rans_bit_encoder.h"
+#include "draco/compression/entropy/symbol_encoding.h"
 #include "draco/core/varint_encoding.h"
 #include "draco/core/verif_hooks.h"
 using namespace draco;
@@ -287,15 +288,17 @@ static int run_sweep(const std::string &dir, int shard, int nshards, int level, 
 
 // ---------------------------------------------------------------------------------------------- semantic faults: streams assembled from model rows
 // Layout (bitstream 2.2, mesh, Edgebreaker, standard traversal, no attribute connectivity data, one int32x3 POSITION attribute stored raw):
-//   "DRACO" 2 2 | type 1 | method 1 | flags u16 0 | traversal type 0 | varint nv | varint nf | u8 0 | varint nsym | varint nss |
+//   "DRACO" 2 2 | type 1 | method 1 | flags u16 0 | traversal type 0 (valence: 2) | varint nv | varint nf | u8 0 | varint nsym | varint nss |
 //   varint nev { varint dsrc, varint src-split } (bits: 1 per event) | symbols: varint size + bits (decoder order) | start faces: rABS block |
 //   u8 1 decoder | i8 -1, u8 0 (vertex attribute), u8 0 (depth first) | varint 1 | 0, 5 (int32), 3, 0, varint 0 | u8 1 (integer) | i8 -2 (no prediction), u8 0 (raw),
 //   u8 4 | values
+// Valence traversal (row.mode = "val"): no symbol bit section; start faces first, then 6 x (varint n, EncodeSymbols block) = the context vectors.
 static std::vector<char> assemble_eb(const vrt::J &row) {
   EncoderBuffer b;
   b.Encode("DRACO", 5);
   b.Encode((uint8_t)2); b.Encode((uint8_t)2); b.Encode((uint8_t)1); b.Encode((uint8_t)1); b.Encode((uint16_t)0);
-  b.Encode((uint8_t)0);
+  const bool valence = row["mode"].s == "val";
+  b.Encode((uint8_t)(valence ? 2 : 0));
   const std::string &sy = row["s"].s;
   const long nv = (long)row["nv"].n, nf = (long)row["nf"].n, nss = (long)row["nss"].n;
   EncodeVarint<uint32_t>((uint32_t)nv, &b);
@@ -317,17 +320,28 @@ static std::vector<char> assemble_eb(const vrt::J &row) {
     for (auto &e : ev) b.EncodeLeastSignificantBits32(1, (uint32_t)e[2].n);
     b.EndBitEncoding();
   }
-  b.StartBitEncoding((int64_t)sy.size() * 3 + 8, true);
-  for (char c : sy) {
-    const uint32_t code = c == 'C' ? 0 : c == 'S' ? 1 : c == 'L' ? 3 : c == 'R' ? 5 : 7;
-    b.EncodeLeastSignificantBits32(c == 'C' ? 1 : 3, code);
+  if (!valence) {
+    b.StartBitEncoding((int64_t)sy.size() * 3 + 8, true);
+    for (char c : sy) {
+      const uint32_t code = c == 'C' ? 0 : c == 'S' ? 1 : c == 'L' ? 3 : c == 'R' ? 5 : 7;
+      b.EncodeLeastSignificantBits32(c == 'C' ? 1 : 3, code);
+    }
+    b.EndBitEncoding();
   }
-  b.EndBitEncoding();
   RAnsBitEncoder sf;
   sf.StartEncoding();
   const std::vector<int> sb = row["sb"].ints();
   for (size_t i = 0; i < sy.size() + 2; ++i) sf.EncodeBit(i < sb.size() ? sb[i] != 0 : false);     // one bit per possible active corner: never runs dry
   sf.EndEncoding(&b);
+  if (valence) {
+    // valence traversal: start faces first, then the six context vectors (storage order: the decoder pops from the back)
+    for (int k = 0; k < 6; ++k) {
+      std::vector<uint32_t> ids;
+      for (int x : row["ctx"][k].ints()) ids.push_back((uint32_t)x);
+      EncodeVarint<uint32_t>((uint32_t)ids.size(), &b);
+      if (!ids.empty()) EncodeSymbols(ids.data(), (int)ids.size(), 1, nullptr, &b);
+    }
+  }
   b.Encode((uint8_t)1);
   b.Encode((int8_t)-1); b.Encode((uint8_t)0); b.Encode((uint8_t)0);
   EncodeVarint<uint32_t>(1, &b);
@@ -356,7 +370,7 @@ static void probe_eb(const vrt::J &row, long index, EbStats *st) {
   st->emitted++;
   std::vector<int> faces;
   if (d.ok && d.is_mesh) faces = faces_of(*d.mesh());
-  out.begin("EbProbe").i("row", index).s("s", row["s"].s).i("nv", row["nv"].n).i("nf", row["nf"].n).i("nss", row["nss"].n).s("pred", pred).s("pk", pred.substr(0, pred.find(':'))).i("pred_np", row["np"].n)
+  out.begin("EbProbe").i("row", index).s("mode", row["mode"].s == "val" ? "val" : "std").s("s", row["s"].s).i("nv", row["nv"].n).i("nf", row["nf"].n).i("nss", row["nss"].n).s("pred", pred).s("pk", pred.substr(0, pred.find(':'))).i("pred_np", row["np"].n)
       .arr("pred_faces", row["faces"].ints()).b("ok", d.ok).b("modified", modified).b("bad_alloc", tolerated_bad_alloc)
       .i("np", d.ok ? (long long)d.pc->num_points() : 0).arr("faces", faces).raw("sv", d.ok ? struct_json(*d.pc, d.is_mesh) : "{\"np\":0,\"nf\":0,\"maxface\":-1,\"atts\":[]}").end();
   fflush(out.f);
